@@ -701,11 +701,26 @@ class ImputeRef:
                         ImputeRef("dense", [[nv, V(1 if r is None else 0)] for nv, r in zip(new_rows, orig)], True, ())]
             return [ImputeRef("scalar", new_rows, True, ())]
         if kind == "dense":
-            if optional:
+            if optional or not self.len_exact:
+                # indicator columns are not pinned (now or by an earlier pass): only the known leading columns are compared
                 n0 = len(rows[0])
-                return [ImputeRef("dense", [nr[:n0] for nr in new_rows], False, ())]   # indicator columns not pinned
-            return [ImputeRef("dense", new_rows, self.len_exact, ())]
+                return [ImputeRef("dense", [nr[:n0] for nr in new_rows], False, ())]
+            return [ImputeRef("dense", new_rows, True, ())]
         return [ImputeRef("sparse", new_rows, True, self.optional_keys | {"%s_is_missing" % k for k in optional})]
+
+
+_LIST_PROBE = {}
+
+
+def lists_applied_in_order():
+    """does this tree's Environments.impute apply a list of statistics one after the other?  (recorded defect C11-F11:
+    only the last one is applied; the defect itself is reported through its corpus case)"""
+    if "v" not in _LIST_PROBE:
+        case = {"op": "impute", "kind": "dense", "container": "tuple", "rows": [[V(1), V("a")], [None, None], [V(3), V("a")]],
+                "stats": ["mean", "mode"], "ind": False, "using": None, "via": "env", "itype": "sim"}
+        r = run_impl(case)
+        _LIST_PROBE["v"] = "out" in r and is_num(r["out"][1]["v"][0]) and fr(r["out"][1]["v"][0]) == 2
+    return _LIST_PROBE["v"]
 
 
 # ------------------------------------------------------------------ the property
@@ -741,8 +756,11 @@ class C11(Property):
         "using >= 1 or None",
     ]
     partial_theorems = {
-        "scale_sparse_eq_spec": "hypothesis `key occurs in the fitting window`: Scale never scales a sparse key that first appears after the window "
-                                "(recorded finding C11-F9 for a given numeric scale); see scale_sparse_key_outside_window_counterexample",
+        "scale_sparse_eq_spec_partial": "hypothesis hpot `the key occurs in the fitting window`: Scale never scales a sparse key that first appears "
+                                        "after the window (finding C11-F9 for a given numeric scale; witness scale_sparse_key_outside_window_counterexample)",
+        "impute_sparse_eq_spec_partial": "hypothesis hkey `the key occurs in the fitting window`: Impute keeps a None under a sparse key that first appears "
+                                         "after the window although its window statistic (absent = 0) is 0 (finding C11-F10; witness "
+                                         "impute_sparse_key_outside_window_counterexample)",
     }
 
     # ---- generators
@@ -1106,13 +1124,16 @@ class C11(Property):
                 skip = "nan in an Impute table (not modelled)"
             if op == "impute" and len(case["stats"]) > 1 and kind == "scalar" and any(is_str(v) for v in flat):
                 skip = "scalar string contexts with a list of statistics (indicator of a feature without imputation is not pinned)"
+            if op == "impute" and len(case["stats"]) > 1 and not lists_applied_in_order():
+                b_failed = True      # (A) is meaningless while only the last statistic is applied (reported via C11-F11's case)
+                tags.append("A-skipped:lists-not-sequential")
             if skip:
                 tags.append("A-skipped")
             else:
                 ans = driver.ask(req)
                 model = ans["model"]
                 d = None if b_failed else self.compare_model(case, impl, ans)
-                if b_failed:
+                if main_b_failed:
                     tags.append("A-skipped:B-failed")
                 if d:
                     fails.append(F("A", "implementation and model differ: %s" % d[1], "A:%s:%s:%s" % (op, kind, d[0])))
